@@ -5,7 +5,8 @@ PATCH="$1"; PROP="$2"; TIER="${3:-quick}"
 cd /verif
 if ! git -C /repo diff --quiet; then echo "seedtest: /repo dirty, refusing"; exit 3; fi
 git -C /repo apply "$PATCH" || { echo "seedtest: patch does not apply"; exit 3; }
-./check "$PROP" "$TIER" > /dev/shm/seedtest.$$.out 2>&1; rc=$?
+trap "git -C /repo checkout -- ." EXIT
+timeout 3000 ./check "$PROP" "$TIER" > /dev/shm/seedtest.$$.out 2>&1; rc=$?
 git -C /repo checkout -- .
 grep -E "^VIOLATION|^KNOWN|^\[|HARNESS" /dev/shm/seedtest.$$.out | head -12
 grep -E "^  bucket" /dev/shm/seedtest.$$.out | cut -c1-260 | head -8
